@@ -1,5 +1,6 @@
 """One check run: proof obligations + correspondence + falsifier + verdict + evidence."""
 import importlib
+import re
 import json
 import multiprocessing
 import os
@@ -189,7 +190,9 @@ def main(pid, tier, seed, replay=None):
     modname = 'harness.' + pid.lower()
     mod = importlib.import_module(modname)
     workers = int(os.environ.get('VERIF_WORKERS', '0')) or (14 if tier == 'thorough' else 8)
-    evidence_path = os.path.join(common.VERIF, 'evidence', pid + '.json')
+    # a stage module run on its own (E2E, E2E3, RES: development aid) is not a property: its evidence goes to replays/
+    is_property = bool(re.fullmatch(r'C\d\d', pid))
+    evidence_path = os.path.join(common.VERIF, 'evidence' if is_property else 'replays', pid + ('.json' if is_property else '_stage_evidence.json'))
     scratch = common.Scratch()
     lines = []
     exit_code = 0
